@@ -13,6 +13,9 @@ Decided (structural, every action / every policy and storage outcome):
         get_heads().clone())): the new head descends from every previous head.
  R5 K1  VmPolicy::call_action: every published command passes self.call_rule (success edge)
         before facts.add_command; Check and Panic exits return Err without add_command.
+ R6 K3  the committed head set is replaced only by ClientState::action (on the edges of R1) and
+        Transaction::commit: nothing ClientState::action runs *before* the policy's verdict
+        (collapse_heads, get_linear_perspective, ...) calls Storage::commit_heads.
 Not decided: equality of graph contents on failure (merge segments written by collapse_heads
 before a failing action are unreachable from the committed heads; a value-level argument)."""
 from rules.core import pat
@@ -117,3 +120,11 @@ def run(F, rep, tier):
                     rep.check(not bad and not crs_in and bool(errs), "vm.call_action|exit:%s" % v, "K2 err-edge action",
                               "ExitReason::%s returns Err without adding a command or resuming the action" % v, site=g.site(st.line))
         rep.floor("call_action exit-reason arms (Check, Panic)", n, 2)
+    # R6
+    callers = sorted({(f.root or f.path) for f in F.fns if f.crate == "aranya_runtime" and not f.derived and "/testing/" not in f.file
+                      for c in f.calls if c.name == "commit_heads" and c.trait and c.trait.endswith("storage::Storage")})
+    allowed = {"aranya_runtime::client::ClientState::action", "aranya_runtime::client::transaction::Transaction::commit"}
+    rep.check(bool(callers) and set(callers) <= allowed and "aranya_runtime::client::ClientState::action" in callers, "commit_heads|callers", "K3 who-may-call",
+              "Storage::commit_heads is called only by %s" % [c.split("::")[-1] for c in callers],
+              "Storage::commit_heads is called outside ClientState::action / Transaction::commit (%s): a helper that an action runs before the policy's verdict "
+              "(e.g. collapse_heads) would replace the committed heads although the action can still fail" % [c for c in callers if c not in allowed])
